@@ -146,6 +146,8 @@ def table():
         m = json.load(open(mp))
         for p, x in sorted(m.get('checks', {}).items()):
             rows.append(f"| {sid} | {m['breaks_property']} | {p} {x['tier']} | {'caught' if x['caught'] else 'MISSED'} | {x.get('first','').replace('----','').strip()} |")
+        if m.get('outside_property'):
+            rows.append(f"| {sid} | {m['breaks_property']} | - | outside the property as stated | {m['outside_property']} |")
     print('| seeded change | breaks | check run | verdict | first report |\n|---|---|---|---|---|')
     print('\n'.join(rows))
 
@@ -159,3 +161,11 @@ if __name__ == '__main__':
         sys.exit(0 if all(x['caught'] for x in r.values()) else 1)
     if c == 'table':
         table()
+    if c == 'drop':      # drop <id> <prop>: forget the verdict of a check that was run out of curiosity against a property the change does not break
+        mp = f'{V}/seeded/{sys.argv[2]}/meta.json'
+        m = json.load(open(mp)); m.get('checks', {}).pop(sys.argv[3], None)
+        json.dump(m, open(mp, 'w'), indent=1)
+    if c == 'outside':   # outside <id> <reason>: the demonstrated behaviour is outside the property's quantifier
+        mp = f'{V}/seeded/{sys.argv[2]}/meta.json'
+        m = json.load(open(mp)); m['outside_property'] = sys.argv[3]
+        json.dump(m, open(mp, 'w'), indent=1)
